@@ -66,6 +66,7 @@ def cases(tier, seed):
     cs.append({'t': 'users'})
     cs.append({'t': 'noident'})
     cs.append({'t': 'reflag'})
+    cs.append({'t': 'unhashed'})
     return cs
 
 
@@ -431,6 +432,67 @@ def _users(ctx, d, pgpy):
             else:
                 ctx.count('refusals_expected_and_seen')
     ctx.nontrivial(d)
+
+
+def _unhashed(ctx, d, pgpy):
+    """capabilities come from the signed (hashed) key-flags subpacket only: the same keys with a grant-everything key-flags subpacket (and a
+    never-expires / primary / preferences set) appended to the unhashed area of every self-signature and binding behave exactly as before"""
+    from pgpy.constants import CompressionAlgorithm
+    from .. import unhashed
+    other = sigwork.target_key()
+    opub = other.pubkey
+    msg = pgpy.PGPMessage.new('policy', compression=CompressionAlgorithm.Uncompressed)
+    cells = [{'p': 'ed25519_0', 'pf': ['Certify'], 'subs': [['ed25519_1', ['Sign']], ['cv25519_0', ['EncryptCommunications']]]},
+             {'p': 'ed25519_0', 'pf': ['Certify'], 'subs': [['cv25519_0', ['EncryptStorage']]]},
+             {'p': 'rsa1024_0', 'pf': ['Certify'], 'subs': [['rsa1024_1', ['Sign']]]},
+             {'p': 'rsa1024_0', 'pf': ['Certify', 'Sign'], 'subs': [['rsa1024_1', ['Authentication']]]},
+             {'p': 'ecdsa_p256_0', 'pf': ['Certify', 'EncryptCommunications'], 'subs': [['ecdsa_p256_1', ['Sign']], ['ecdh_p256_0', []]]},
+             {'p': 'ed25519_2', 'pf': ['Certify'], 'subs': []},
+             {'p': 'rsa2048_0', 'pf': ['Certify', 'Sign'], 'subs': []}]
+    for cell in cells:
+        k = build(cell)
+        for extra_name, extra in (('all-flags', unhashed.GRANT_ALL_FLAGS), ('everything', unhashed.ALL), ('flags-twice', unhashed.sp(27, b'\x0c') + unhashed.sp(27, b'\x02'))):
+            blob, n = unhashed.inject(bytes(k), {0x10, 0x11, 0x12, 0x13, 0x18, 0x1F}, extra)
+            try:
+                k2 = pgpy.PGPKey.from_blob(blob)[0]
+            except Exception as e:
+                ctx.observe('key_with_unhashed_additions_not_loadable:' + type(e).__name__)
+                continue
+            for op in ('sign', 'certify', 'encrypt'):
+                ctx.count('cells')
+                ctx.count('evaluations')
+                ctx.count('unhashed_addition_cells')
+                model_actor = k.pubkey if op == 'encrypt' else k
+                actor = k2.pubkey if op == 'encrypt' else k2
+                allowed, must_refuse = allowed_components(model_actor, op)
+                allowed_fps = {str(a.fingerprint) for a in allowed}
+                if op == 'encrypt':
+                    allowed_fps = {f for f in allowed_fps if mat_of_fp(f)['alg'] in (1, 18)}
+                    must_refuse = not allowed_fps
+                res = do_op(pgpy, actor, op, opub.userids[0], msg, None)
+                where = {'cell': cell, 'op': op, 'unhashed_addition': extra_name, 'signatures_touched': n}
+                if must_refuse and res[0] != 'refused':
+                    ctx.fail('capability-granted-by-unsigned-subpacket', dict(where, result=res[0]))
+                elif not must_refuse and res[0] == 'refused':
+                    ctx.fail('operation-refused-although-a-component-has-the-capability', dict(where, err=repr(res[1])[:160]))
+                elif res[0] == 'refused':
+                    ctx.count('refusals_expected_and_seen')
+                else:
+                    if res[0] == 'sig':
+                        kid = RS.issuer(RS.parse_sig(wire.split(res[1])[0].body))
+                    else:
+                        pk_ = [p_ for p_ in wire.split(res[1]) if p_.tag == 1]
+                        kid = RPK.pkesk_fields(pk_[0].body)['keyid'] if pk_ else b''
+                    if not any(f[-16:] == kid.hex().upper() for f in allowed_fps):
+                        ctx.fail('capability-granted-by-unsigned-subpacket', dict(where, used=hx(kid), allowed=sorted(f[-16:] for f in allowed_fps)))
+    ctx.nontrivial(d)
+
+
+def mat_of_fp(fp):
+    for n in pool.allmat():
+        if RK.fpr_of(pool.mat(n)).hex().upper() == fp:
+            return pool.mat(n)
+    raise KeyError(fp)
 
 
 def _reflag(ctx, d, pgpy):
